@@ -1,5 +1,6 @@
 """C01 — names bound at run time are visible"""
 import contracts.nast_flow  # noqa
+import contracts.linter  # noqa
 import contracts.tables  # noqa
 
 INFO = {'not_decided': ['match statements, PEP 695, except*, del, dynamic names (outside the domain)'],
